@@ -26,6 +26,7 @@ pub struct Profile {
     pub w_drop_arena: u32,
     pub w_drop_fault: u32,
     pub w_plain_root: u32,
+    pub w_rootless: u32,
     pub w_sweep_fault: u32,
     pub w_drop_unwinding: u32,
     pub w_settle: u32,
@@ -75,6 +76,7 @@ impl Profile {
             w_drop_arena: 0,
             w_drop_fault: 0,
             w_plain_root: 0,
+            w_rootless: 0,
             w_sweep_fault: 0,
             w_drop_unwinding: 0,
             w_settle: 4,
@@ -246,6 +248,7 @@ pub fn step_strategy(p: &Profile) -> BoxedStrategy<Step> {
         (p.w_drop_arena, arena().prop_map(|arena| Step::DropArena { arena }).boxed()),
         (p.w_drop_fault, (1u8..24).prop_map(|k| Step::ArmDropPanic { k }).boxed()),
         (p.w_plain_root, (any::<u8>(), any::<u8>()).prop_map(|(root, variant)| Step::PlainRootProtocol { root, variant }).boxed()),
+        (p.w_rootless, (any::<u8>(), any::<bool>(), any::<bool>()).prop_map(|(n, cyclic, panics)| Step::Rootless { n, cyclic, panics }).boxed()),
         (p.w_sweep_fault, (0u8..12).prop_map(|k| Step::ArmSweepPanic { k }).boxed()),
         (p.w_drop_unwinding, arena().prop_map(|arena| Step::DropArenaUnwinding { arena }).boxed()),
         (p.w_settle, arena().prop_map(|arena| Step::Settle { arena }).boxed()),
